@@ -1,3 +1,5 @@
 SPECIFICATION SRouteSpec
-INVARIANTS SentinelReplicaOnlyWhenOptedIn GenSRoute
+CONSTANTS
+  BugRepickRemainder = FALSE
+INVARIANTS SentinelReplicaOnlyWhenOptedIn WholeCallOneClass GenSRoute
 CHECK_DEADLOCK FALSE
